@@ -473,28 +473,43 @@ class Real(PackedOps, RandOps):
         else:
             k = float(dec_dy(kv['k']))
         inplace = kv.get('inplace') == '1'
+        if kv.get('npk') == 'f8' and not isinstance(k, list):
+            k = np.float64(k)                 # a strongly typed numpy scalar wider than a float32 map
+        elif kv.get('npk') == 'f4' and not isinstance(k, list):
+            k = np.float32(k)
         before = None
-        if kv['op'] == 'div' and not m.is_rec_array and not m.is_wide_mask_map and m.dtype.kind == 'f' and k != 0:
+        if kv['op'] in ('add', 'sub', 'mul', 'div') and not isinstance(k, list) and not m.is_rec_array \
+                and not m.is_wide_mask_map and m.dtype.kind == 'f' and not (kv['op'] == 'div' and k == 0):
             vp = m.valid_pixels
             before = (vp, np.array(m.get_values_pix(vp)), m.dtype)
         r = getattr(m, self.PYOPS[kv['op']][1 if inplace else 0])(k)
         if r is NotImplemented:
             raise TypeError('NotImplemented')
         if before is not None and isinstance(r, HealSparseMap):
-            # IEEE division is correctly rounded: (m / k)[p] must be THE float nearest to the exact quotient, in the
-            # map's precision (a float32 map divides by the scalar cast to float32) — decided with exact rationals,
-            # independent of the model, which declines non-dyadic quotients (seeded change C12g: x * (1/k))
+            # IEEE + - * / are correctly rounded: (m op k)[p] must be THE float nearest to the exact result in the
+            # precision numpy works in — float64 for a float64 map or a float64 numpy scalar (then cast to the map's
+            # float32), float32 for a float32 map with a Python / float32 scalar (the scalar itself cast first) —
+            # decided with exact rationals, independent of the model, which declines results it cannot represent
+            # (seeded changes C12g: x * (1/k); C12h: the scalar rounded to float32 before the operation)
             from fractions import Fraction
             import core
             vp, xs, dt = before
-            prec = 24 if dt.itemsize == 4 else 53
-            kk = Fraction(float(np.float32(k))) if dt.itemsize == 4 else Fraction(float(k))
+            f4map = dt.itemsize == 4
+            wide = (not f4map) or isinstance(k, np.float64)
+            K = Fraction(float(k))
+            if f4map and not wide:
+                K = Fraction(float(np.float32(k)))
+            fop = {'add': lambda a, b: a + b, 'sub': lambda a, b: a - b, 'mul': lambda a, b: a * b,
+                   'div': lambda a, b: a / b}[kv['op']]
             got = r.get_values_pix(vp)
             for p, x, y in zip(vp.tolist(), xs.tolist(), got.tolist()):
-                want = core.round_to(Fraction(float(x)) / kk, prec)
-                if np.isfinite(y) and Fraction(float(y)) != want and float(want) != float(r._sentinel):
-                    raise HarnessOracle('division not correctly rounded at pixel %d: %r / %r gave %r, nearest is %r'
-                                        % (p, x, k, y, float(want)))
+                want = core.round_to(fop(Fraction(float(x)), K), 53 if wide else 24)
+                if f4map:
+                    want = core.round_to(want, 24)
+                if np.isfinite(y) and abs(want) < Fraction(2) ** 120 and Fraction(float(y)) != want \
+                        and float(want) != float(r._sentinel):
+                    raise HarnessOracle('%s not correctly rounded at pixel %d: %r %s %r gave %r, nearest is %r'
+                                        % (kv['op'], p, x, kv['op'], k, y, float(want)))
         if inplace:
             self.pool[pos[0]] = r
         else:
